@@ -423,6 +423,33 @@ func vfOp(ws []string) (string, bool) {
 		}
 		return code + " | " + vfStoreDigest(), true
 	case "gc":
+		if ws[1] == "loop" {
+			// the collector itself (largeFileRunGarbageCollection) with a period of 40 ms: every upload here is minutes old at most,
+			// well within the grace period of one hour, and older than the period
+			time.Sleep(120 * time.Millisecond)
+			before := vw.ad.CallNo
+			vw.ad.Calls = nil
+			stop := largeFileRunGarbageCollection(40*time.Millisecond, 100)
+			deadline := time.Now().Add(3 * time.Second)
+			for time.Now().Before(deadline) {
+				vw.ad.mu.Lock()
+				n := 0
+				for _, c := range vw.ad.Calls {
+					if c == "FileDeleteUnused" {
+						n++
+					}
+				}
+				vw.ad.mu.Unlock()
+				if n >= 2 {
+					break
+				}
+				time.Sleep(10 * time.Millisecond)
+			}
+			stop <- true
+			_ = before
+			vw.ad.Calls = nil
+			return "ok | " + vfStoreDigest(), true
+		}
 		// gc due   : everything not linked is old enough;  gc fresh : the grace period has not passed for anything
 		t := time.Now().Add(time.Hour)
 		if ws[1] == "fresh" {
